@@ -349,6 +349,10 @@ func (c *Ctx) Finish() {
 		ps.WorkerDeaths += p.Stats.WorkerDeaths
 		ps.WatchdogFired += p.Stats.WatchdogFired
 		ps.Inconclusive += p.Stats.Inconclusive
+		ps.Skipped += p.Stats.Skipped
+	}
+	if ps.Skipped > 0 {
+		c.inconcl = append(c.inconcl, fmt.Sprintf("the watchdog fired too often: %d job(s) were skipped", ps.Skipped))
 	}
 	cov["worker_jobs"] = ps.Jobs
 	cov["worker_deaths"] = ps.WorkerDeaths
